@@ -134,6 +134,89 @@ theorem maxTarget2_plain (ops : List Op) : ∀ m, maxTarget2 m (ops.map Op2.plai
     intro m
     cases op <;> simp only [List.map, maxTarget2, maxTarget, ih]
 
+/-- **Arrival order survives the composite step**: when holder `i` leaves and waiter `j` is
+cancelled within the same loop iteration, the tasks admitted by the step (entered or refused)
+followed by the tasks still waiting are exactly the old waiting list without `j` - whether `j` had
+already been handed the permit (it passes it on), was still queued, or was not waiting at all. -/
+theorem fifo_admission_composite (s : Lim) (h : Inv s) (i j : Nat) (hi : i ∈ s.holders) :
+    ids (stepExitCancel s i j).2 ++ (stepExitCancel s i j).1.waiters = s.waiters.erase j := by
+  have hS0 := h.S_nonneg
+  have key : ∀ (w2 : Work) (L : List Nat), WInv w2 → w2.queue = L →
+      ids (finish w2).2 ++ (finish w2).1.waiters = L := by
+    intro w2 L hw2 hq
+    rw [(finish_spec w2 hw2).queue, hq]
+  unfold stepExitCancel
+  simp only [hi, ↓reduceIte]
+  rw [retireBound_fixed s h.fx]
+  by_cases hv : s.V > bound s
+  · simp only [hv, ↓reduceIte]
+    by_cases hj : j ∈ s.waiters
+    · simp only [hj, ↓reduceIte]; simp [ids]
+    · simp only [hj, ↓reduceIte]; simp [ids, List.erase_of_not_mem hj]
+  · simp only [hv, ↓reduceIte]
+    have w0inv : WInv ⟨{ s with holders := s.holders.erase i }, [], []⟩ := ⟨hS0, h.wait_S, h.fx⟩
+    obtain ⟨rinv, fr, _⟩ := release_spec _ w0inv
+    generalize release ⟨{ s with holders := s.holders.erase i }, [], []⟩ = w at rinv fr
+    have eq : w.woken ++ w.st.waiters = s.waiters := by simpa using fr.q
+    have ee : w.evs = [] := fr.evs
+    by_cases hjw : j ∈ w.woken
+    · simp only [hjw, ↓reduceIte]
+      have w1inv : WInv { w with woken := w.woken.erase j, evs := w.evs ++ [Ev.cancelled j] } :=
+        ⟨rinv.S_nonneg, rinv.wait_S, rinv.fx⟩
+      obtain ⟨r2, f2, _⟩ := release_spec _ w1inv
+      apply key _ _ r2
+      have a : (release { w with woken := w.woken.erase j, evs := w.evs ++ [Ev.cancelled j] }).evs = w.evs ++ [Ev.cancelled j] := f2.evs
+      have b : (release { w with woken := w.woken.erase j, evs := w.evs ++ [Ev.cancelled j] }).woken ++
+          (release { w with woken := w.woken.erase j, evs := w.evs ++ [Ev.cancelled j] }).st.waiters =
+          w.woken.erase j ++ w.st.waiters := f2.q
+      simp only [Work.queue]
+      rw [a, b, ee, ← eq, List.erase_append_left _ hjw]
+      simp [ids]
+    · simp only [hjw, ↓reduceIte]
+      by_cases hjq : j ∈ w.st.waiters
+      · simp only [hjq, ↓reduceIte]
+        have q0 : WInv { w with st := { w.st with waiters := w.st.waiters.erase j } } :=
+          ⟨rinv.S_nonneg, fun _ => rinv.wait_S (by intro h0; rw [h0] at hjq; simp at hjq), rinv.fx⟩
+        have es : s.waiters.erase j = w.woken ++ w.st.waiters.erase j := by
+          rw [← eq, List.erase_append_right _ hjw]
+        cases hwk : w.woken with
+        | nil =>
+          simp only []
+          refine key _ _ ?_ ?_
+          · exact ⟨q0.S_nonneg, q0.wait_S, q0.fx⟩
+          simp only [Work.queue]
+          rw [es, hwk, ee]
+          simp [ids]
+        | cons x rest =>
+          simp only []
+          have q1 : WInv { ({ w with st := { w.st with waiters := w.st.waiters.erase j } } : Work) with woken := rest } :=
+            ⟨q0.S_nonneg, q0.wait_S, q0.fx⟩
+          have a := resume_spec x _ q1
+          generalize resume x { ({ w with st := { w.st with waiters := w.st.waiters.erase j } } : Work) with woken := rest } = w1 at a
+          have aq : ids w1.evs ++ (w1.woken ++ w1.st.waiters) = ids w.evs ++ x :: (rest ++ w.st.waiters.erase j) := a.queue
+          refine key _ _ ?_ ?_
+          · exact ⟨a.inv.S_nonneg, a.inv.wait_S, a.inv.fx⟩
+          simp only [Work.queue]
+          rw [ids_append, List.append_assoc]
+          have : ids [Ev.cancelled j] = [] := rfl
+          rw [this, List.nil_append, aq, es, hwk, ee]
+          simp
+      · simp only [hjq, ↓reduceIte]
+        have hns : j ∉ s.waiters := by
+          rw [← eq]; intro hm
+          rcases List.mem_append.1 hm with hm | hm
+          · exact hjw hm
+          · exact hjq hm
+        have := key w (s.waiters.erase j) rinv (by
+          simp only [Work.queue]; rw [ee, List.erase_of_not_mem hns, eq]; simp)
+        simpa [ids] using this
+
+-- non-vacuity of `fifo_admission_composite`: limit 1, holder 0, waiters 1 and 2; 0 leaves and 1 -
+-- who had just been handed the permit - is cancelled in the same iteration: 2 is admitted
+example : let s := (run (init 1) [.enter 0, .enter 1, .enter 2]).1
+    Inv s ∧ 0 ∈ s.holders ∧ s.waiters = [1, 2] ∧ (stepExitCancel s 0 1).2 = [.cancelled 1, .entered 2] := by
+  refine ⟨run_inv _ _ (init_inv 1), ?_, ?_, ?_⟩ <;> decide
+
 -- non-vacuity: limit 1 raised to 2 while a holder leaves and the first waiter is cancelled in the
 -- same iteration - two holders at the end, never more than the largest limit in force (2)
 example : (run2 (init 1) [.plain (.enter 0), .plain (.enter 1), .plain (.enter 2), .plain (.enter 3),
